@@ -157,15 +157,16 @@ def _optimize_contractions(relevant_obj_names: tuple[str],
         contraction = Contraction(indices=contr_indices, names=contr_names,
                                   term_target_indices=target_indices,
                                   external_indices=external)
-        # if the contraction is not an outer contraction we have to check
-        # the dimensionality of the intermediate tensor
-        if max_itmd_dim is not None and \
-                contraction.target != target_indices and \
-                len(contraction.target) > max_itmd_dim:
-            continue
         # remove the contracted names and indices
         remaining_pos = [pos for pos in range(len(relevant_obj_names))
                          if pos not in group]
+        # if the contraction is not the outer contraction, i.e., there are
+        # objects left to contract, we have to check the dimensionality of
+        # the intermediate tensor (an inner contraction may already carry all
+        # target indices of the term)
+        if max_itmd_dim is not None and remaining_pos and \
+                len(contraction.target) > max_itmd_dim:
+            continue
         remaining_names = (contraction.contraction_name,
                            *(relevant_obj_names[pos] for pos in remaining_pos))
         remaining_indices = (contraction.target, *(relevant_obj_indices[pos]
